@@ -148,7 +148,7 @@ pub fn run(tier: Tier, _replay: Option<String>) -> i32 {
     let faulty3 = Arc::new(faulty3);
     // (a) signal at every point; check / view-less analysis / writer
     for cap in [1usize, 2] {
-        for (mode, input) in [(Mode::AllIts, faulty3.clone()), (Mode::All, clean3.clone())] {
+        for (mode, input) in [(Mode::AllIts, faulty3.clone()), (Mode::All, clean3.clone()), (Mode::AllItsIgnoredOutput(0), faulty3.clone())] {
             let scn = Scn { mode, mute: false, max_errors: 0, signal: true, cap: 2, input: input.clone(), scratch: scratch(), toml: false };
             explore_stop(&mut rep, &mut tot, &scn, Some(cap), bound, &format!("signal, {:?}, queue capacity {cap}, 8 packets in batches of 2", mode), None);
         }
